@@ -91,9 +91,10 @@ def census(fn):
 class Inject:
     """Context manager: raise InjectedFault when (file, function, line) is about to run for the n-th time."""
 
-    def __init__(self, site, nth=1):
+    def __init__(self, site, nth=1, exc=None):
         self.file, self.func, self.line = site
         self.nth = nth
+        self.exc = exc or InjectedFault        # e.g. KeyboardInterrupt: the user interrupts a long fit
         self.count = 0
         self.fired = False
 
@@ -104,7 +105,7 @@ class Inject:
         self.count += 1
         if self.count == self.nth and not self.fired:
             self.fired = True
-            raise InjectedFault("injected fault at %s:%s:%d (hit %d)" % (self.file, self.func, self.line, self.nth))
+            raise self.exc("injected fault at %s:%s:%d (hit %d)" % (self.file, self.func, self.line, self.nth))
         return None
 
     def __enter__(self):
